@@ -127,14 +127,16 @@ def Ev.localOk (ds : List Decl) (ev : Ev) : Prop := ev.relOk ds ∧ aggBoundOk e
 
 /-- item-local conditions of the HIR pass at a position where the variables of `g` are grounded -/
 def Ev.okAt (ds : List Decl) (g : List Var) (ev : Ev) : Prop :=
-  ev.localOk ds ∧ ev.binderVars.Nodup ∧ ∀ v ∈ ev.binderVars, v ∉ g ∧ v ∉ ev.argIdents
+  ev.localOk ds ∧ ev.binderVars.Nodup ∧ (∀ v ∈ ev.binderVars, v ∉ g ∧ v ∉ ev.argIdents) ∧
+    ev.boundVars.Nodup ∧ ∀ v ∈ ev.boundVars, v ∉ g
 
 theorem hirEv_ok_iff (ds : List Decl) (g : List Var) (ev : Ev) :
     (∃ g', hirEv ds g ev = .ok g') ↔ ev.okAt ds g := by
   cases ev with
   | clause rel args conds =>
     unfold hirEv Ev.okAt Ev.localOk Ev.relOk
-    simp only [Ev.rel?, Ev.binderVars, Ev.argIdents, Option.some.injEq, aggBoundOk, and_true]
+    simp only [Ev.rel?, Ev.binderVars, Ev.argIdents, Option.some.injEq, aggBoundOk, Ev.boundVars, List.nodup_nil,
+      List.not_mem_nil, false_imp_iff, implies_true, and_true]
     cases hg : getRelation ds rel args.length with
     | error e =>
       have hne : ¬ ∃ d, findDecl ds rel = some d ∧ d.arity = args.length := by
@@ -164,7 +166,8 @@ theorem hirEv_ok_iff (ds : List Decl) (g : List Var) (ev : Ev) :
         · exact (h2 v hv).2 h
   | binder b =>
     unfold hirEv Ev.okAt Ev.localOk Ev.relOk
-    simp only [Ev.rel?, Ev.binderVars, Ev.argIdents, extendGrounded_ok_iff, aggBoundOk, and_true]
+    simp only [Ev.rel?, Ev.binderVars, Ev.argIdents, extendGrounded_ok_iff, aggBoundOk, Ev.boundVars, List.nodup_nil,
+      List.not_mem_nil, false_imp_iff, implies_true, and_true]
     constructor
     · rintro ⟨g', h1, h2, _⟩
       exact ⟨fun o ho => (by cases ho), h1, fun v hv => ⟨h2 v hv, by simp⟩⟩
@@ -172,7 +175,7 @@ theorem hirEv_ok_iff (ds : List Decl) (g : List Var) (ev : Ev) :
       exact ⟨_, h1, fun v hv => (h2 v hv).1, rfl⟩
   | agg rel args pat bound =>
     unfold hirEv Ev.okAt Ev.localOk Ev.relOk
-    simp only [Ev.rel?, Ev.binderVars, Ev.argIdents, Option.some.injEq]
+    simp only [Ev.rel?, Ev.binderVars, Ev.argIdents, Option.some.injEq, Ev.boundVars]
     cases hb : aggBoundOk (.agg rel args pat bound) with
     | false =>
       simp only [Bool.not_false, if_true]
@@ -181,11 +184,20 @@ theorem hirEv_ok_iff (ds : List Decl) (g : List Var) (ev : Ev) :
       · rintro ⟨⟨_, h⟩, _⟩; cases h
     | true =>
     simp only [Bool.not_true, Bool.false_eq_true, if_false, and_true]
+    cases hbd : extendGrounded g bound with
+    | error e =>
+      constructor
+      · rintro ⟨g', h⟩; cases h
+      · rintro ⟨_, _, _, k1, k2⟩
+        have := (extendGrounded_ok_iff bound g (g ++ bound)).2 ⟨k1, k2, rfl⟩
+        rw [hbd] at this; cases this
+    | ok gb =>
+    obtain ⟨k1, k2, _⟩ := (extendGrounded_ok_iff bound g gb).1 hbd
     cases he : extendGrounded g pat.seen with
     | error e =>
       constructor
       · rintro ⟨g', h⟩; cases h
-      · rintro ⟨_, h1, h2⟩
+      · rintro ⟨_, h1, h2, _⟩
         have := (extendGrounded_ok_iff pat.seen g (g ++ pat.seen)).2 ⟨h1, fun v hv => (h2 v hv).1, rfl⟩
         rw [he] at this; cases this
     | ok g1 =>
@@ -203,7 +215,7 @@ theorem hirEv_ok_iff (ds : List Decl) (g : List Var) (ev : Ev) :
         have hd := (getRelation_ok_iff ds rel args.length u).1 hg
         constructor
         · intro _
-          exact ⟨fun o ho => (by subst ho; exact hd), h1, fun v hv => ⟨h2 v hv, by simp⟩⟩
+          exact ⟨fun o ho => (by subst ho; exact hd), h1, fun v hv => ⟨h2 v hv, by simp⟩, k1, k2⟩
         · intro _
           exact ⟨g1, rfl⟩
 
@@ -227,12 +239,14 @@ theorem hirEv_mem (ds : List Decl) (g g' : List Var) (ev : Ev) (h : hirEv ds g e
     · cases h
     · split at h
       · cases h
-      · rename_i g1 he
-        split at h
+      · split at h
         · cases h
-        · cases h
-          obtain ⟨_, _, rfl⟩ := (extendGrounded_ok_iff _ _ _).1 he
-          simp [Ev.grounds, Ev.argIdents, Ev.binderVars]
+        · rename_i g1 he
+          split at h
+          · cases h
+          · cases h
+            obtain ⟨_, _, rfl⟩ := (extendGrounded_ok_iff _ _ _).1 he
+            simp [Ev.grounds, Ev.argIdents, Ev.binderVars]
 
 theorem Ev.okAt_congr {ds : List Decl} {g g' : List Var} {ev : Ev} (h : ∀ v, v ∈ g ↔ v ∈ g') :
     ev.okAt ds g ↔ ev.okAt ds g' := by
@@ -278,7 +292,8 @@ theorem hirBody_ok_iff (ds : List Decl) : ∀ (evs : List Ev) (g : List Var),
 theorem bodyOk_iff (ds : List Decl) : ∀ (evs : List Ev) (g : List Var),
     bodyOk ds g evs ↔ (∀ ev ∈ evs, ev.localOk ds) ∧
       ∀ pre ev post, evs = pre ++ ev :: post →
-        ev.binderVars.Nodup ∧ ∀ v ∈ ev.binderVars, v ∉ g ++ pre.flatMap Ev.grounds ++ ev.argIdents
+        ev.binderVars.Nodup ∧ (∀ v ∈ ev.binderVars, v ∉ g ++ pre.flatMap Ev.grounds ++ ev.argIdents) ∧
+          ev.boundVars.Nodup ∧ ∀ v ∈ ev.boundVars, v ∉ g ++ pre.flatMap Ev.grounds
   | [], g => by
     unfold bodyOk
     simp
@@ -287,7 +302,7 @@ theorem bodyOk_iff (ds : List Decl) : ∀ (evs : List Ev) (g : List Var),
     rw [bodyOk_iff ds rest (g ++ e.grounds)]
     unfold Ev.okAt
     constructor
-    · rintro ⟨⟨h1, h2, h3⟩, h4, h5⟩
+    · rintro ⟨⟨h1, h2, h3, h6, h7⟩, h4, h5⟩
       refine ⟨?_, ?_⟩
       · intro ev hev
         rcases List.mem_cons.1 hev with rfl | hev
@@ -298,32 +313,45 @@ theorem bodyOk_iff (ds : List Decl) : ∀ (evs : List Ev) (g : List Var),
         | nil =>
           simp only [List.nil_append, List.cons.injEq] at heq
           obtain ⟨rfl, rfl⟩ := heq
-          refine ⟨h2, ?_⟩
-          intro v hv
-          simp only [List.flatMap_nil, List.append_nil, List.mem_append, not_or]
-          exact h3 v hv
+          refine ⟨h2, ?_, h6, ?_⟩
+          · intro v hv
+            simp only [List.flatMap_nil, List.append_nil, List.mem_append, not_or]
+            exact h3 v hv
+          · intro v hv
+            simp only [List.flatMap_nil, List.append_nil]
+            exact h7 v hv
         | cons e' pre' =>
           simp only [List.cons_append, List.cons.injEq] at heq
           obtain ⟨rfl, rfl⟩ := heq
-          obtain ⟨k1, k2⟩ := h5 pre' ev post rfl
-          refine ⟨k1, ?_⟩
-          intro v hv
-          have := k2 v hv
-          simpa only [List.flatMap_cons, List.mem_append, not_or, and_assoc] using this
+          obtain ⟨k1, k2, k3, k4⟩ := h5 pre' ev post rfl
+          refine ⟨k1, ?_, k3, ?_⟩
+          · intro v hv
+            have := k2 v hv
+            simpa only [List.flatMap_cons, List.mem_append, not_or, and_assoc] using this
+          · intro v hv
+            have := k4 v hv
+            simpa only [List.flatMap_cons, List.mem_append, not_or, and_assoc] using this
     · rintro ⟨h1, h2⟩
-      refine ⟨⟨h1 e (List.mem_cons_self ..), ?_, ?_⟩, ?_, ?_⟩
+      refine ⟨⟨h1 e (List.mem_cons_self ..), ?_, ?_, ?_, ?_⟩, ?_, ?_⟩
       · exact (h2 [] e rest rfl).1
       · intro v hv
-        have := (h2 [] e rest rfl).2 v hv
+        have := (h2 [] e rest rfl).2.1 v hv
         simpa only [List.flatMap_nil, List.append_nil, List.mem_append, not_or] using this
+      · exact (h2 [] e rest rfl).2.2.1
+      · intro v hv
+        have := (h2 [] e rest rfl).2.2.2 v hv
+        simpa only [List.flatMap_nil, List.append_nil] using this
       · intro ev hev
         exact h1 ev (List.mem_cons_of_mem _ hev)
       · intro pre ev post heq
-        obtain ⟨k1, k2⟩ := h2 (e :: pre) ev post (by rw [heq]; rfl)
-        refine ⟨k1, ?_⟩
-        intro v hv
-        have := k2 v hv
-        simpa only [List.flatMap_cons, List.mem_append, not_or, and_assoc] using this
+        obtain ⟨k1, k2, k3, k4⟩ := h2 (e :: pre) ev post (by rw [heq]; rfl)
+        refine ⟨k1, ?_, k3, ?_⟩
+        · intro v hv
+          have := k2 v hv
+          simpa only [List.flatMap_cons, List.mem_append, not_or, and_assoc] using this
+        · intro v hv
+          have := k4 v hv
+          simpa only [List.flatMap_cons, List.mem_append, not_or, and_assoc] using this
 
 theorem hirHeads_ok_iff (ds : List Decl) : ∀ (hs : List Head),
     hirHeads ds hs = .ok () ↔ ∀ h ∈ hs, ∃ d, findDecl ds h.rel = some d ∧ d.arity = h.nargs
@@ -348,7 +376,8 @@ theorem hirRule_ok_iff (ds : List Decl) (r : CoreRule) :
       (∀ o ∈ r.occurrences, ∃ d, findDecl ds o.1 = some d ∧ d.arity = o.2) ∧
       (∀ ev ∈ r.body, aggBoundOk ev = true) ∧
       (∀ pre ev post, r.body = pre ++ ev :: post →
-        ev.binderVars.Nodup ∧ ∀ v ∈ ev.binderVars, v ∉ pre.flatMap Ev.grounds ++ ev.argIdents) := by
+        ev.binderVars.Nodup ∧ (∀ v ∈ ev.binderVars, v ∉ pre.flatMap Ev.grounds ++ ev.argIdents) ∧
+          ev.boundVars.Nodup ∧ ∀ v ∈ ev.boundVars, v ∉ pre.flatMap Ev.grounds) := by
   have hocc : (∀ o ∈ r.occurrences, ∃ d, findDecl ds o.1 = some d ∧ d.arity = o.2) ↔
       (∀ ev ∈ r.body, ev.relOk ds) ∧ ∀ h ∈ r.heads, ∃ d, findDecl ds h.rel = some d ∧ d.arity = h.nargs := by
     unfold CoreRule.occurrences Ev.relOk
